@@ -1,10 +1,13 @@
 #!/bin/sh
 # try_seed.sh <patch.diff> <property>...: apply a seeded change to /repo, run the quick checks, undo it.
+# The evidence files are put back afterwards: committed evidence must come from the unchanged tree.
 patch="$1"; shift
 cd /repo || exit 2
 git apply "$patch" || { echo "patch does not apply"; exit 2; }
 cd /verif
+rm -rf /tmp/evidence.keep && cp -r evidence /tmp/evidence.keep
 for p in "$@"; do
   VERIF_NO_SEARCH=${VERIF_NO_SEARCH:-} ./check "$p" quick 2>&1 | grep -E "VIOLATION|KNOWN|quick:" | cut -c1-300
 done
+rm -rf evidence && mv /tmp/evidence.keep evidence
 cd /repo && git checkout -- . && git status --short | head -3
